@@ -212,8 +212,57 @@ def main13(tag, outdir):
         open(os.path.join(outdir, aid + ".txt"), "w").write(out)
         print(aid, len(out))
 
+# wave 14: by INTERACTION of two features (each is exercised alone by most tests and checks; their combination is where gaps hide)
+PAIRS14 = [
+ ("G01", "adaptive-fee pools (oracle account, fee-tier index different from the tick spacing) x the liquidity instructions (increase / decrease / reposition, Pinocchio handlers)"),
+ ("G02", "adaptive-fee pools x Token-2022 transfer-fee mints (swap_v2 / two_hop_swap_v2 over such a pool)"),
+ ("G03", "adaptive-fee pools x the fee setters (set_fee_rate, set_fee_rate_by_delegated_fee_authority, set_protocol_fee_rate, set_adaptive_fee_constants) applied in the middle of a trading history"),
+ ("G04", "Token-2022 mints with a transfer fee used as REWARD mints (initialize_reward_v2, set_reward_emissions_v2 vault check, collect_reward_v2)"),
+ ("G05", "Token-2022 transfer-fee mints x reposition_liquidity_v2 and increase_liquidity_by_token_amounts_v2 (netting of withdrawal and deposit, maxima / minima, events)"),
+ ("G06", "full-range-only pools (tick spacing >= 32768) x the position lifecycle (open with sentinel bounds, reset_position_range, reposition, bundled positions, locking)"),
+ ("G07", "dynamic tick arrays x swaps that cross ticks in the first / last slot of an array and in the arrays at the MIN / MAX end of the tick range"),
+ ("G08", "locked positions x collecting fees and rewards x transfer_locked_position (who can collect what before and after the transfer)"),
+ ("G09", "bundled positions x the liquidity and collect instructions (the authority is the bundle token's holder or its one-token delegate)"),
+ ("G10", "Token-2022 position NFTs (open_position_with_token_extensions) x the Pinocchio liquidity handlers x close_position_with_token_extensions"),
+ ("G11", "several rewards at once x tick crossings x positions opened before / after emissions started (growth-outside bookkeeping per reward index)"),
+ ("G12", "owed rewards and fees x reset_position_range / reposition_liquidity_v2 / close_position* (what blocks, what survives)"),
+ ("G13", "two-hop swaps x partial fills, per-leg price limits and exact-out mode"),
+ ("G14", "two-hop swaps x supplemental tick arrays x un-initialised tick arrays"),
+ ("G15", "protocol fees x collect_protocol_fees(_v2) x changes of the fee rate / protocol fee rate between swaps"),
+ ("G16", "zero-liquidity gaps x swaps (price jumps across the gap, fee accounting while liquidity is zero) x the adaptive-fee tick-group skipping"),
+ ("G17", "extreme tick spacings (1, odd values, >= 32768) x tick-array geometry x position bounds at the MIN / MAX usable ticks"),
+ ("G18", "rust-sdk/core swap quotes x Token-2022 transfer fees on the input and / or output mint x exact-out mode"),
+ ("G19", "rust-sdk/core swap quotes x adaptive fees x tick-array sequences containing un-initialised arrays or starting at the edge of the tick range"),
+ ("G20", "rust-sdk/core liquidity quotes (by liquidity, by token A, by token B) x prices at or outside the range bounds x slippage"),
+]
+
+def main14(tag, outdir):
+    os.makedirs(outdir, exist_ok=True)
+    root = os.path.dirname(os.path.dirname(os.path.abspath(__file__)))
+    brief = open(os.path.join(root, "notes/SEED_BRIEF.md")).read().split("\n---\n", 1)[1]
+    props = [json.loads(l) for l in open(os.path.join(root, "properties.jsonl"))]
+    plist = "\n".join(f"* {p['id']} — {p['title']}. {p['statement']}" for p in props)
+    for aid, pair in PAIRS14:
+        d = f"/tmp/{tag}_{aid}"
+        text = ("This time you are not given one property but an INTERACTION of features. The repository is expected to satisfy all of the "
+                "following properties (each must hold for every input, history and configuration):\n\n" + plist +
+                "\n\nYour assigned interaction:\n  - " + pair +
+                "\n\nEach of these features works on its own and is what tests and reviews usually exercise one at a time. Read the code "
+                "where they MEET, and make a change that is invisible as long as only one of the features is in play but breaks one of the "
+                "properties above when they are combined. Pick whichever property your change breaks, and say which one in meta.json "
+                "(\"property\": \"Cxx\").")
+        out = (brief.replace("{dir}", d).replace("{property}", text).replace("{used}", "(about 260 earlier changes exist, nearly all of them visible with a single feature in play - a change that needs the COMBINATION is what is wanted here)")
+               .replace("{steer}", "The change must leave every single-feature scenario exactly as before: plain SPL static-fee pools with ordinary positions, and each of the two features "
+                        "used without the other, must behave bit for bit the same. Say in demo.md how you checked that.")
+               .replace("{id}", "Cxx"))
+        out = out.replace("Earlier changes written against this property are listed here", "Earlier changes")
+        open(os.path.join(outdir, aid + ".txt"), "w").write(out)
+        print(aid, len(out))
+
 def main():
     tag, outdir = sys.argv[1], sys.argv[2]
+    if tag.startswith("seed14"):
+        return main14(tag, outdir)
     if tag.startswith("seed13"):
         return main13(tag, outdir)
     if tag.startswith("seed11"):
